@@ -434,6 +434,13 @@ func (g *TemplateGenerator) Generate(
 			}
 			methods[i] = methodData
 		}
+		// The mock's methods declare the interface's type parameters in their
+		// receiver: a parameter of the same name would redeclare them.
+		for i := 0; tparams != nil && i < tparams.Len(); i++ {
+			for _, method := range methods {
+				method.Scope.AddName(tparams.At(i).Obj().Name())
+			}
+		}
 		// Now that all methods have been generated, we need to resolve naming
 		// conflicts that arise between variable names and package qualifiers.
 		for _, method := range methods {
